@@ -26,8 +26,10 @@ def large_exchanges(ctx):
     cannot reach."""
     binary = vlib.build_harness(ctx, "h-ec")
     out = ctx.path("large_exchange.json")
-    sizes = "1,2,3,999,1000,1001,4999,55556,55557" if ctx.tier == "quick" else "1,2,3,9,10,11,999,1000,1001,4999,9999,10000,10001,49999,50000,50001,55555,55556,55557,111112"
-    vlib.run_harness(ctx, [binary, "large-exchange", "--out", out, "--sizes", sizes], timeout=3000)
+    sizes = "1,2,3,999,1000,1001,4097,10001,55556,55557" if ctx.tier == "quick" else "1,2,3,9,10,11,999,1000,1001,4097,4999,9999,10000,10001,20001,49999,50000,50001,55555,55556,55557,111112"
+    # differences of removals only, of sizes just past the round numbers a batching of removals may use (the poller hands all of them over at once today)
+    removals = "1001,4097,10001,20001" if ctx.tier == "quick" else "2,3,1001,1025,4097,8193,10001,16385,20001,32769,50001,65537,100001"
+    vlib.run_harness(ctx, [binary, "large-exchange", "--out", out, "--sizes", sizes, "--removal-sizes", removals], timeout=3000)
     rep = vlib.load_json(out)
     if rep["evaluations"] == 0 or rep["entries"] < 50000 or (rep["violation_count"] == 0 and rep.get("faults_run_into", 0) < rep.get("faulty_exchanges", 1)):
         raise vlib.ToolError("vacuous large-exchange run: %s" % {k: rep.get(k) for k in ("evaluations", "entries", "faulty_exchanges", "faults_run_into")})
@@ -35,7 +37,7 @@ def large_exchanges(ctx):
         rep["evaluations"], rep["violation_count"]))
     for v in rep["violations"][:3]:
         ctx.violations.append(dict(engine="h-ec large-exchange", **v))
-    return {"exchanges_with_one_fault": rep.get("faulty_exchanges"), "exchanges": rep["evaluations"], "entries": rep["entries"], "sizes": rep["sizes"], "exchanges_that_leave_a_difference": rep["violation_count"]}
+    return {"exchanges_with_one_fault": rep.get("faulty_exchanges"), "exchanges": rep["evaluations"], "entries": rep["entries"], "sizes": rep["sizes"], "removal_only_sizes": rep.get("removal_sizes"), "exchanges_that_leave_a_difference": rep["violation_count"]}
 
 
 def run(ctx):
